@@ -76,6 +76,8 @@ def check(prop, tier, replay=None):
     # cost must stay proportional to the size of the project: many scenarios over inherited limits
     for pid, p in gen.many_scenarios(rng, 6 if tier == "quick" else 60):
         jobs.append({"id": "C11-" + pid, "text": p.render(), "scenarios": [0]})
+    for pid, p in gen.wide_groups(rng, 4 if tier == "quick" else 40):
+        jobs.append({"id": "C11-" + pid, "text": p.render(), "scenarios": [0]})
     seeds = []
     for name in ("dags", "limits_profile", "calendars", "teams_alts"):
         seeds += [("gen-" + pid, p.render()) for pid, p in getattr(gen, name)(rng, 3 if tier == "quick" else 25)]
